@@ -143,6 +143,8 @@ class Collector:
                 if c.get("st") is not None:
                     self.dop(c["st"])
                     sr = f'<STRUCTURE-REF ID-REF="{c["st"]["id"]}"/>'
+                    if c.get("snref"):
+                        sr = f'<STRUCTURE-SNREF SHORT-NAME="{c["st"]["id"]}"/>'
                 cx += (f'<CASE><SHORT-NAME>{c["name"]}</SHORT-NAME>{sr}<LOWER-LIMIT>{c["lo"]}</LOWER-LIMIT>'
                        f'<UPPER-LIMIT>{c["hi"]}</UPPER-LIMIT></CASE>')
             dx = ""
